@@ -1,4 +1,5 @@
 pub mod c05;
+pub mod c06;
 pub mod c07;
 pub mod c09;
 pub mod c10;
@@ -8,6 +9,7 @@ pub mod c13;
 pub mod c14;
 pub mod c15;
 pub mod c16;
+pub mod c18;
 pub mod screen_props;
 
 use crate::report::Report;
@@ -29,6 +31,7 @@ pub fn run(id: &str, cfg: &RunCfg) -> Option<PropResult> {
     match id {
         "C01" | "C02" | "C03" | "C04" | "C19" => Some(screen_props::run(id, cfg)),
         "C05" => Some(c05::run(cfg)),
+        "C06" => Some(c06::run(cfg)),
         "C07" => Some(c07::run(cfg)),
         "C09" => Some(c09::run(cfg)),
         "C10" => Some(c10::run(cfg)),
@@ -38,6 +41,7 @@ pub fn run(id: &str, cfg: &RunCfg) -> Option<PropResult> {
         "C14" => Some(c14::run(cfg)),
         "C15" => Some(c15::run(cfg)),
         "C16" => Some(c16::run(cfg)),
+        "C18" => Some(c18::run(cfg)),
         _ => None,
     }
 }
